@@ -619,9 +619,22 @@ def c14_case(rng):
         fault_lines = [f1] + gap + [f2]
         expect = [("error", 0, len(head) + 9), ("trace1", 0, len(head) + 9), ("trace2", len(gap) + 1, len(ind2))]
     else:
-        stmt = "diag_log [__LINE__, __FILE__];"
-        fault_lines = [head + stmt]
-        expect = [("linefile", 0, None)]
+        # __LINE__ in front of a separator, or as the last thing on its line (LF or CRLF behind it), alone or through
+        # an object-like macro whose body is __LINE__
+        shape = rng.choice(["inline", "inline", "eol", "eol", "eol-macro"])
+        if shape == "inline":
+            fault_lines = [head + "diag_log [__LINE__, __FILE__];"]
+            expect = [("linefile", 0, None)]
+        elif shape == "eol":
+            lay.features.add("line-macro-at-end-of-line")
+            ind2 = rng.choice(["", "  ", "\t"])
+            fault_lines = [head + "diag_log [", ind2 + "__LINE__", ind2 + ", __FILE__];"]
+            expect = [("linefile", 1, None)]
+        else:
+            lay.features.add("line-macro-at-end-of-line")
+            lay.features.add("line-macro-through-define")
+            fault_lines = ["#define HERE__ __LINE__", head + "diag_log [", "HERE__", ", __FILE__];"]
+            expect = [("linefile", 2, None)]
         col_exact = False
     pos = len(lines)            # 0-based line index of the first fault line
     lines += fault_lines
